@@ -241,8 +241,10 @@ def coq_eval(prelude, terms, kind="bool", tag="x", shards=16):
     n = len(terms)
     if n == 0:
         return [], ""
-    per = max(1, min(400, (n + shards - 1) // shards))
-    chunks = [(i, terms[i:i + per]) for i in range(0, n, per)]
+    # round-robin over the shards: neighbouring terms (e.g. the few very long histories a generator emits one after the other)
+    # land in different coqc processes
+    nsh = max(1, min(shards, n)) if n <= 400 * shards else (n + 399) // 400
+    chunks = [(k, [terms[i] for i in range(k, n, nsh)]) for k in range(nsh)]
     jobs = [(k, prelude, ch, kind, tag) for k, (_, ch) in enumerate(chunks)]
     results = {}
     with concurrent.futures.ThreadPoolExecutor(max_workers=16) as ex:
@@ -253,13 +255,14 @@ def coq_eval(prelude, terms, kind="bool", tag="x", shards=16):
     if kind == "bool":
         bad = []
         for k, (base, _) in enumerate(chunks):
-            bad += [base + j for j in results[k]]
-        return bad, ""
-    vals = []
+            bad += [base + j * nsh for j in results[k]]
+        return sorted(bad), ""
+    vals = [None] * n
     for k, (base, ch) in enumerate(chunks):
         if len(results[k]) != len(ch):
             return None, f"shard {k}: expected {len(ch)} values, got {len(results[k])}"
-        vals += results[k]
+        for j, v in enumerate(results[k]):
+            vals[base + j * nsh] = v
     return vals, ""
 
 
